@@ -45,37 +45,66 @@
 (* Meta(cfg) is therefore the specification's image of "the design built   *)
 (* from scratch with the replacement in place".                            *)
 (*                                                                         *)
+(* Positions may be NESTED (Input.below[p] = the positions inside the       *)
+(* component at p, e.g. "m" hosts "m.g"); every position has its own       *)
+(* palette (Input.palof[p]): leaf classes of several KINDS (pure RTL,      *)
+(* registers, internal method nets without external method ports, nested   *)
+(* children, internal slices / constants) and, for a hosting position, the *)
+(* wrapper classes.  Replacing the component at p rebuilds everything      *)
+(* below p too: Sub(p) = {p} \cup Below(p).                                *)
+(*                                                                         *)
 (* Actions Replace(pos, cls) / ReplaceWithObj(pos, cls): the two API calls *)
-(* differ only in who constructs the new object and have the same abstract *)
-(* effect ReplaceMeta.                                                     *)
+(* have the same abstract effect ReplaceMeta on the metadata and differ in *)
+(* who constructs the new object: replace_component re-uses the            *)
+(* constructor arguments of the REMOVED object (variable arg: the classes  *)
+(* the object at the hosting position was constructed with), so a nested   *)
+(* position falls back to the class its host was built with;               *)
+(* replace_component_with_obj gets an object the caller built beforehand,  *)
+(* here with the classes currently sitting at the nested positions.        *)
+(*                                                                         *)
+(* One TLC run explores several SCENARIOS (Input.scenarios; variable sc):   *)
+(* initial designs, the positions replaced, the classes used, the bound on *)
+(* the length of a history and whether either API call may occur at every  *)
+(* step ("both") or replace_component at even, replace_component_with_obj  *)
+(* at odd steps ("alt").                                                   *)
 (*                                                                         *)
 (* Bug # "none" switches on a model-level mutant of ReplaceMeta (used by   *)
 (* the harness as a canary: TLC must then report an invariant violation).  *)
+(* MutantReport evaluates, for every mutant named in Input.bugs, whether a *)
+(* history of at most two steps from Input.mutant_init breaks              *)
+(* HistoryIndependent or NoLeftover, and prints the verdict (the same      *)
+(* canary inside the run that checks the invariants of the real model).    *)
 (* HistOnly = TRUE drops the metadata component of the state so that the   *)
-(* graph of (cfg, n) can be dumped compactly; its paths are the histories  *)
-(* that the harness replays on the real code.                              *)
+(* graph of (sc, cfg, arg, n) can be dumped compactly; its paths are the   *)
+(* histories that the harness replays on the real code.                    *)
 (***************************************************************************)
 EXTENDS Naturals, Sequences, FiniteSets, TLC, Json, IOUtils, SequencesExt
 
-CONSTANTS MaxLen,      \* bound on the length of a history
-          Bug,         \* "none" or the name of a model-level mutant
-          HistOnly,    \* TRUE: do not track metadata (history enumeration only)
-          Kinds        \* "both": either API call at every step; "alt": replace_component at
-                       \* even steps (0, 2, ..), replace_component_with_obj at odd steps
+CONSTANTS Bug,         \* "none" or the name of a model-level mutant
+          HistOnly     \* TRUE: do not track metadata (history enumeration only)
 
-VARIABLES cfg, meta, n
-vars == <<cfg, meta, n>>
+VARIABLES sc, cfg, arg, meta, n
+vars == <<sc, cfg, arg, meta, n>>
 
 ---------------------------------------------------------------------------
 \* Data
 
 Input     == JsonDeserialize(IOEnv.VERIF_INPUT)
-Positions == ToSet(Input.positions)          \* positions replaced in this run
-Palette   == ToSet(Input.palette)            \* classes used in this run
 AllPos    == ToSet(Input.allpos)             \* every position of the hierarchy
-InitCfgs  == {[p \in AllPos |-> g[p]] : g \in ToSet(Input.inits)}   \* initial designs
 PFields   == ToSet(Input.fields)
 Classes   == DOMAIN Input.local
+FullPaletteOf(p) == ToSet(Input.palof[p])    \* the classes that fit position p
+\* scenario i: [inits, positions, palette, kinds, maxlen]
+Scen          == Input.scenarios
+PositionsOf(i)  == ToSet(Scen[i].positions)                         \* positions replaced
+PaletteOf(i, p) == FullPaletteOf(p) \cap ToSet(Scen[i].palette)     \* classes used
+InitCfgsOf(i)   == {[p \in AllPos |-> g[p]] : g \in ToSet(Scen[i].inits)}   \* initial designs
+MaxLenOf(i)     == Scen[i].maxlen
+KindsOf(i)      == Scen[i].kinds
+Below(p)  == ToSet(Input.below[p])           \* positions nested inside the component at p
+Sub(p)    == {p} \cup Below(p)
+NestedPos == UNION {Below(p) : p \in AllPos}
+Outer(p)  == {q \in AllPos : p \in Below(q)}
 
 HarnessOf(f)  == ToSet(Input.harness[f])
 LocalOf(c, f) == ToSet(Input.local[c][f])
@@ -89,8 +118,11 @@ Top  == <<"", "s">>
 Rename(x, p)      == IF x[1] = "$" THEN <<p, x[2]>> ELSE x
 RenameEntry(e, p) == [i \in DOMAIN e |-> Rename(e[i], p)]
 Mentions(e, p)    == \E i \in DOMAIN e : e[i][1] = p
+MentionsAny(e, S) == \E i \in DOMAIN e : e[i][1] \in S
 
 Part(p, c) == [f \in PFields |-> {RenameEntry(e, p) : e \in LocalOf(c, f)}]
+\* what the classes of configuration g declare at the positions S
+LocalAt(g, S, f) == UNION {{RenameEntry(e, q) : e \in LocalOf(g[q], f)} : q \in S}
 
 \* the design built from scratch for configuration g
 Meta(g) == [f \in PFields |->
@@ -100,58 +132,83 @@ Meta(g) == [f \in PFields |->
 \* The replacement
 
 \* model-level mutants (canaries)
-BugKeeps(f) == \/ Bug = "wr_typo"          /\ f = "wru"
-               \/ Bug = "no_l4_uncollect"  /\ f \in {"once", "mc"}
-               \/ Bug = "ifc_kept"         /\ f = "ifcs"
-               \/ Bug = "reads_kept"       /\ f = "rd"
-               \/ Bug = "signals_kept"     /\ f = "sigs"
-BugLoses(f, e, p) ==
-    \/ Bug = "same_child_connection_lost" /\ f = "conn"
+BugKeeps(bug, f) == \/ bug = "wr_typo"          /\ f = "wru"
+                    \/ bug = "no_l4_uncollect"  /\ f \in {"once", "mc"}
+                    \/ bug = "ifc_kept"         /\ f = "ifcs"
+                    \/ bug = "reads_kept"       /\ f = "rd"
+                    \/ bug = "signals_kept"     /\ f = "sigs"
+BugLoses(bug, f, e, p) ==
+    \/ bug = "same_child_connection_lost" /\ f = "conn"
                                           /\ \A i \in 2 .. Len(e) : e[i][1] = p
-    \/ Bug = "boundary_connection_lost"   /\ f = "conn"
-    \/ Bug = "boundary_reads_lost"        /\ f = "rd"
-    \/ Bug = "spawned_slice_lost"         /\ f = "sigs"
+    \/ bug = "boundary_connection_lost"   /\ f = "conn"
+    \/ bug = "boundary_reads_lost"        /\ f = "rd"
+    \/ bug = "spawned_slice_lost"         /\ f = "sigs"
+    \* only the blocks of the immediate parent are looked at: what a block further up says about
+    \* the removed component is lost
+    \/ bug = "ancestor_reads_lost"        /\ f \in {"rd", "calls"} /\ e[1][1] = "" /\ Outer(p) # {}
+    \* the write of a parent's update_ff block into the removed component is lost
+    \/ bug = "ff_write_lost"              /\ f = "wr" /\ \E b \in HarnessOf("ff") : b[1] = e[1]
 
-\* g is the configuration before the step
-ReplaceMeta(m, g, p, c) ==
+\* g is the configuration before the step, g2 the one after it
+RM(bug, m, g, g2, p) ==
     [f \in PFields |->
-        LET old      == {RenameEntry(e, p) : e \in LocalOf(g[p], f)}   \* declared by the old class
-            kept     == {e \in m[f] : ~Mentions(e, p)}
-            \* cross-boundary entries: not declared by the class being removed, but naming
-            \* objects below p; saved by name before the old component is deleted and
-            \* re-evaluated against the new one
-            saved    == {e \in m[f] : Mentions(e, p)} \ old
-            restored == IF Bug = "none" THEN saved ELSE {e \in saved : ~BugLoses(f, e, p)}
-            leaked   == IF BugKeeps(f) THEN m[f] \cap old ELSE {}
-            fresh    == {RenameEntry(e, p) : e \in LocalOf(c, f)}
+        LET S        == Sub(p)
+            old      == LocalAt(g, S, f)                               \* declared by the old classes
+            kept     == {e \in m[f] : ~MentionsAny(e, S)}
+            \* cross-boundary entries: naming objects below p but not (only) declared by the
+            \* classes being removed - the harness mentions them (a removed class may have
+            \* declared the same slice / field itself); saved by name before the old component is
+            \* deleted and re-evaluated against the new one
+            saved    == {e \in m[f] : MentionsAny(e, S)} \ (old \ HarnessOf(f))
+            restored == IF bug = "none" THEN saved ELSE {e \in saved : ~BugLoses(bug, f, e, p)}
+            leaked   == IF BugKeeps(bug, f) THEN m[f] \cap old
+                        ELSE IF bug = "nested_kept" THEN m[f] \cap LocalAt(g, Below(p), f)
+                        ELSE {}
+            fresh    == LocalAt(g2, S, f)
         IN  kept \cup restored \cup fresh \cup leaked]
+
+ReplaceMeta(m, g, g2, p) == RM(Bug, m, g, g2, p)
+
+\* configuration / constructor arguments after a step
+NextCfg(g, a, k, p, c) ==
+    IF k = "Replace" THEN [q \in AllPos |-> IF q = p THEN c ELSE IF q \in Below(p) THEN a[q] ELSE g[q]]
+    ELSE [g EXCEPT ![p] = c]
+NextArg(g, a, k, p) ==
+    IF k = "Replace" THEN a
+    ELSE [q \in NestedPos |-> IF q \in Below(p) THEN g[q] ELSE a[q]]
 
 ---------------------------------------------------------------------------
 \* State machine
 
-Init == /\ cfg \in InitCfgs
+Init == /\ sc \in 1 .. Len(Scen)
+        /\ cfg \in InitCfgsOf(sc)
+        /\ arg = [q \in NestedPos |-> cfg[q]]
         /\ meta = IF HistOnly THEN {} ELSE Meta(cfg)
         /\ n = 0
+
+Step(k, pos, cls) ==
+    /\ pos \in PositionsOf(sc) /\ cls \in PaletteOf(sc, pos)
+    /\ n < MaxLenOf(sc)
+    /\ sc'   = sc
+    /\ cfg'  = NextCfg(cfg, arg, k, pos, cls)
+    /\ arg'  = NextArg(cfg, arg, k, pos)
+    /\ meta' = IF HistOnly THEN meta ELSE ReplaceMeta(meta, cfg, cfg', pos)
+    /\ n'    = n + 1
 
 \* top.replace_component(top.<pos>, cls): the new object is constructed by the API from the
 \* constructor arguments of the old one
 Replace(pos, cls) ==
-    /\ IF Kinds = "both" THEN TRUE ELSE n % 2 = 0
-    /\ n < MaxLen
-    /\ cfg'  = [cfg EXCEPT ![pos] = cls]
-    /\ meta' = IF HistOnly THEN meta ELSE ReplaceMeta(meta, cfg, pos, cls)
-    /\ n'    = n + 1
+    /\ IF KindsOf(sc) = "both" THEN TRUE ELSE n % 2 = 0
+    /\ Step("Replace", pos, cls)
 
-\* top.replace_component_with_obj(top.<pos>, cls(...)): the caller constructs the new object;
-\* same abstract effect
+\* top.replace_component_with_obj(top.<pos>, cls(...)): the caller constructs the new object
 ReplaceWithObj(pos, cls) ==
-    /\ IF Kinds = "both" THEN TRUE ELSE n % 2 = 1
-    /\ n < MaxLen
-    /\ cfg'  = [cfg EXCEPT ![pos] = cls]
-    /\ meta' = IF HistOnly THEN meta ELSE ReplaceMeta(meta, cfg, pos, cls)
-    /\ n'    = n + 1
+    /\ IF KindsOf(sc) = "both" THEN TRUE ELSE n % 2 = 1
+    /\ Step("ReplaceWithObj", pos, cls)
 
-Next == \E pos \in Positions, cls \in Palette :
+\* (constant bounds, so that TLC labels every transition with its action and arguments; the scenario
+\* restricts positions and classes inside Step)
+Next == \E pos \in AllPos : \E cls \in FullPaletteOf(pos) :
             Replace(pos, cls) \/ ReplaceWithObj(pos, cls)
 
 Spec == Init /\ [][Next]_vars
@@ -185,7 +242,8 @@ Components(adj, roots) ==
 \* in P.  Nets whose writer is known make their other members writers; iterate to the fixed point.
 RangeOvl     == {<<r[1], r[2]>> : r \in ToSet(Input.rovl)}
 Slices(m)    == {e \in m.sinfo : e[5][2] # "-"}
-ParentRel(m) == {<<e[1], e[4]>> : e \in Slices(m)}                 \* <<slice, sliced signal>>
+\* <<slice or struct field, the signal it is part of>> (the palettes nest one level only)
+ParentRel(m) == {<<e[1], e[4]>> : e \in {x \in m.sinfo : x[4] # <<"#", "-">>}}
 OvlRel(m)    == LET S == Slices(m)                                 \* overlapping sibling slices
                 IN  {<<q[1][1], q[2][1]>> : q \in {r \in S \X S : /\ r[1][4] = r[2][4] /\ r[1][1] # r[2][1]
                                                                      /\ <<r[1][5][2], r[2][5][2]>> \in RangeOvl}}
@@ -260,20 +318,48 @@ HistoryIndependent == HistOnly \/ meta = Meta(cfg)
 
 \* nothing named below a position that neither the class now sitting there defines nor the
 \* harness mentions (stale names of removed components, dangling saved names)
-NoLeftover == HistOnly \/ \A x \in NamesOf(meta) :
-                              x[1] \in AllPos => x \in Defined(x[1], cfg[x[1]]) \cup HarnessNames
+LeftoverFree(m, g) == \A x \in NamesOf(m) :
+                          x[1] \in AllPos => x \in Defined(x[1], g[x[1]]) \cup HarnessNames
+NoLeftover == HistOnly \/ LeftoverFree(meta, cfg)
 
 \* the palette is interface compatible: whatever the harness mentions below a position is
 \* defined by every class, or is a slice of a signal defined by every class (so a saved name
 \* can always be re-evaluated against the new object)
+\* (names below p are mentioned by the harness and by the wrapper classes of a hosting position)
+MentionedAt(p) ==
+    {y \in HarnessNames : y[1] = p}
+    \cup UNION {UNION {{y \in NamesOf(Part(q, c)) : y[1] = p} : c \in FullPaletteOf(q)} : q \in Outer(p)}
+
 SameInterface ==
-    \A p \in Positions, c \in Palette :
-        \A x \in {y \in HarnessNames : y[1] = p} :
+    \A p \in AllPos : \A c \in FullPaletteOf(p) :
+        \A x \in MentionedAt(p) :
             \/ x \in Defined(p, c)
             \/ \E e \in HarnessOf("sinfo") : e[1] = x /\ e[4] \in Defined(p, c)
 
 NetsWellFormed == HistOnly \/ UniqueWriter(meta)
 
-TypeOK == /\ n \in 0 .. MaxLen
+\* model-level mutants, evaluated as a constant: some history of one or two steps (either call, any
+\* position, any class that fits) from the configuration Input.mutant_init breaks
+\* HistoryIndependent or NoLeftover when ReplaceMeta is replaced by the mutant
+Broken(m, g) == m # Meta(g) \/ ~LeftoverFree(m, g)
+Calls        == {"Replace", "ReplaceWithObj"}
+MutantCaught(bug) ==
+    LET g0 == [p \in AllPos |-> Input.mutant_init[p]]
+        a0 == [q \in NestedPos |-> g0[q]]
+    IN  \E p1 \in AllPos : \E c1 \in FullPaletteOf(p1) : \E k1 \in Calls :
+            LET g1 == NextCfg(g0, a0, k1, p1, c1)
+                a1 == NextArg(g0, a0, k1, p1)
+                m1 == RM(bug, Meta(g0), g0, g1, p1)
+            IN  \/ Broken(m1, g1)
+                \/ \E p2 \in AllPos : \E c2 \in FullPaletteOf(p2) : \E k2 \in Calls :
+                       LET g2 == NextCfg(g1, a1, k2, p2, c2)
+                       IN  Broken(RM(bug, m1, g1, g2, p2), g2)
+MutantReport == \A b \in ToSet(Input.bugs) : PrintT(<<"V", "mutant", b, MutantCaught(b)>>)
+ASSUME MutantReport
+
+TypeOK == /\ sc \in 1 .. Len(Scen)
+          /\ n \in 0 .. MaxLenOf(sc)
           /\ cfg \in [AllPos -> Classes]
+          /\ \A p \in AllPos : cfg[p] \in FullPaletteOf(p)
+          /\ arg \in [NestedPos -> Classes]
 =============================================================================
